@@ -6,7 +6,7 @@ import (
 	"fmt"
 	"go/token"
 	"go/types"
-	"os"
+	"runtime/debug"
 	"slices"
 	"strings"
 
@@ -47,6 +47,12 @@ type frame struct {
 
 type targetPanic struct{ v Value }
 
+type internalErr struct {
+	msg    string
+	stack  string
+	frames []string
+}
+
 // Machine is the per-path interpreter state.
 type Machine struct {
 	P        *Program
@@ -74,6 +80,7 @@ type Machine struct {
 	initDepth int
 	lenient   int
 	callDepth int
+	initTop   *ssa.Function
 	nowSeq    int
 	lastNow   *Term
 	tzOff     *Term
@@ -102,6 +109,24 @@ func (m *Machine) unsupported(format string, args ...any) {
 }
 
 type lenientSkip struct{ msg string }
+
+// lenientCall runs a call made directly by a package initialiser; if the callee cannot be executed
+// (unsupported construct, engine limitation, panic) the result is the zero value and the stub is recorded.
+func (m *Machine) lenientCall(fr *frame, instr *ssa.Call, fn Value, args []Value) (res Value) {
+	depth := m.callDepth
+	defer func() {
+		if r := recover(); r != nil {
+			switch r.(type) {
+			case pathEnd, killSig:
+				panic(r)
+			}
+			m.callDepth = depth
+			m.stubs[fmt.Sprintf("init-skip:%s: call at %s", fr.fn.Pkg.Pkg.Path(), m.pos(instr.Pos()))]++
+			res = zero(instr.Type())
+		}
+	}()
+	return m.call(fr, instr.Pos(), fn, args)
+}
 
 func (m *Machine) rtPanic(msg string) {
 	panic(targetPanic{Iface{T: m.P.rtErr, V: CStr(msg)}})
@@ -160,10 +185,13 @@ func (m *Machine) initPackage(pkg *ssa.Package) {
 	}
 	m.lenient++
 	m.initDepth++
+	savedTop := m.initTop
+	m.initTop = initFn
 	saved := m.cunwind
 	m.cunwind = 1 << 30
 	defer func() {
 		m.cunwind = saved
+		m.initTop = savedTop
 		m.lenient--
 		m.initDepth--
 		if r := recover(); r != nil {
@@ -262,7 +290,11 @@ func (m *Machine) visitInstr(fr *frame, instr ssa.Instruction) continuation {
 
 	case *ssa.Call:
 		fn, args := m.prepareCall(fr, &instr.Call)
-		fr.env[instr] = m.call(fr, instr.Pos(), fn, args)
+		if m.initDepth > 0 && fr.fn == m.initTop {
+			fr.env[instr] = m.lenientCall(fr, instr, fn, args)
+		} else {
+			fr.env[instr] = m.call(fr, instr.Pos(), fn, args)
+		}
 
 	case *ssa.ChangeInterface:
 		fr.env[instr] = fr.get(instr.X)
@@ -623,6 +655,9 @@ func (m *Machine) callSSA(caller *frame, callpos token.Pos, fn *ssa.Function, ar
 	} else {
 		fr.g = m.cur
 	}
+	if fn.Synthetic == "package initializer" && fn != m.initTop {
+		return nil // other packages are initialised lazily on first access to one of their globals
+	}
 	if fn.Parent() == nil {
 		if ext := findIntrinsic(fn); ext != nil {
 			return ext(m, fr, args)
@@ -680,10 +715,14 @@ func (m *Machine) runFrame(fr *frame) {
 		case targetPanic:
 		default:
 			// interpreter bug: add location
-			if m.extra["debug"] != nil {
-				fmt.Fprintf(os.Stderr, "INTERNAL in %s (%s): %v\n", fr.fn, m.pos(fr.fn.Pos()), r)
+			if _, ok := r.(internalErr); !ok {
+				r = internalErr{msg: fmt.Sprintf("%v", r), stack: string(debug.Stack())}
 			}
-			panic(r)
+			ie := r.(internalErr)
+			if len(ie.frames) < 12 {
+				ie.frames = append(ie.frames, fmt.Sprintf("%s (%s)", fr.fn, m.pos(fr.fn.Pos())))
+			}
+			panic(ie)
 		}
 		fr.panicking = true
 		fr.panic = r
